@@ -4,6 +4,7 @@ snapshots that reached the task along satisfied transitions.
 -/
 import OrqModel.Proofs.Ancestry
 import OrqModel.Proofs.Inherit
+import OrqModel.Proofs.OfferCtx
 import OrqModel.Properties.Truth
 import OrqModel.Properties.History
 
@@ -178,6 +179,63 @@ theorem C06_offer_inherits_predecessor_snapshots (spec : WfSpec) (parentCtx inpu
     exact (List.mem_filter.mp hsx).1
   have hin := (C06_predecessor_snapshots_inherited E spec parentCtx inputs ops).staged sx hmem
   exact ⟨sx, hmem, h1, h2, hin.1, hin.2⟩
+
+/-! ### what an offer is rendered with -/
+
+/-- **C06**, first link, for every state: the context of every offered task is the overlay (in
+    list order, later snapshots overriding earlier ones) of exactly the context snapshots listed
+    by the staged entry `get_task` looks up for the offered task and route -/
+theorem C06_offer_context_is_overlay (c : Cond) (offers : List Offer) (c' : Cond)
+    (h : getNextTasks E c = (.ok offers, c')) :
+    ∀ o ∈ offers, ∃ sx ∈ c.st.staged, sx.id = o.id ∧ sx.route = o.route ∧
+      c.st.getStaged? (o.id, o.route) = some sx ∧ c.st.taskContext sx.ctxsIn = .ok o.ctx := by
+  intro o ho
+  have hspec : CtxSpec c o := nextFrom_ctx E (nextTodo c.st) c c' offers h o ho
+  obtain ⟨sx0, hsx0, h1, h2, _⟩ := C01_offer_from_staged E c offers c' h o ho
+  have hmem0 : sx0 ∈ c.st.staged := by
+    unfold WState.readyStaged at hsx0
+    exact (List.mem_filter.mp hsx0).1
+  cases hg : c.st.getStaged? (o.id, o.route) with
+  | none =>
+    exfalso
+    unfold WState.getStaged? at hg
+    rw [List.find?_eq_none] at hg
+    have := hg sx0 hmem0
+    simp only [h1, h2, beq_self_eq_true, Bool.and_self, not_true_eq_false] at this
+  | some sx =>
+    have hmem : sx ∈ c.st.staged := by
+      unfold WState.getStaged? at hg
+      exact List.mem_of_find?_eq_some hg
+    have hkey := getStaged?_key _ _ _ hg
+    have hid : sx.id = o.id := (Prod.mk.inj hkey).1
+    have hroute : sx.route = o.route := (Prod.mk.inj hkey).2
+    refine ⟨sx, hmem, hid, hroute, rfl, ?_⟩
+    unfold CtxSpec taskCtxIdxs at hspec
+    rw [hg] at hspec
+    exact hspec
+
+/-- **C06**, the chain for what is offered at any point of any history: the offered task's context
+    is the overlay of the snapshots its staged entry lists; index 0 (input and vars) is among
+    them; every listed snapshot is index 0 or reached the task along a satisfied transition; and
+    everything each listed predecessor was rendered from is listed -/
+theorem C06_offer_context_from_ancestors (spec : WfSpec) (parentCtx inputs : Val.Dict) (ops : List Op)
+    (hops : ∀ op ∈ ops, op.notRetryEvent) (offers : List Offer) (c' : Cond)
+    (h : getNextTasks E (runOps E ops (init E spec parentCtx inputs)) = (.ok offers, c')) :
+    ∀ o ∈ offers, ∃ sx ∈ (runOps E ops (init E spec parentCtx inputs)).st.staged,
+      sx.id = o.id ∧ sx.route = o.route ∧
+      (runOps E ops (init E spec parentCtx inputs)).st.taskContext sx.ctxsIn = .ok o.ctx ∧
+      0 ∈ sx.ctxsIn ∧
+      (∀ i ∈ sx.ctxsIn, i = 0 ∨ Via (runOps E ops (init E spec parentCtx inputs)) o.id i) ∧
+      (∀ p ∈ sx.prev, ∃ q, (runOps E ops (init E spec parentCtx inputs)).st.sequence[p.2]? = some q ∧
+        ∀ i ∈ q.ctxsIn, i ∈ sx.ctxsIn) := by
+  intro o ho
+  obtain ⟨sx, hmem, hid, hroute, _, hctx⟩ := C06_offer_context_is_overlay E _ offers c' h o ho
+  have hca := (C06_snapshots_reach_along_true_transitions E spec parentCtx inputs ops hops).staged sx hmem
+  have hin := (C06_predecessor_snapshots_inherited E spec parentCtx inputs ops).staged sx hmem
+  refine ⟨sx, hmem, hid, hroute, hctx, hin.1, ?_, hin.2⟩
+  intro i hi
+  rw [← hid]
+  exact hca i hi
 
 /-- non-vacuity: a state with a published snapshot reaching a staged task -/
 def exampleStateCA : Cond where
